@@ -305,12 +305,13 @@ func OracleEntry(s string, t reflect.Type) string {
 
 // Filled is a translated value with a random subset of its fields set.
 type Filled struct {
-	V       reflect.Value
-	Oracle  string // Coq list (str * ty * outcome tval)
-	NFilled int
-	Depths  map[int]bool
-	Texts   int
-	Zeros   int // fields set to the zero value of their type (non-nil pointer to false/0/"", empty slice/map)
+	V         reflect.Value
+	Oracle    string // Coq list (str * ty * outcome tval)
+	NFilled   int
+	Depths    map[int]bool
+	Texts     int
+	ElemZeros int // zero-but-written scalars / whole zero elements inside element structs of slices and arrays
+	Zeros     int // fields set to the zero value of their type (non-nil pointer to false/0/"", empty slice/map)
 }
 
 // BadTextDen: one in BadTextDen string-cast fields receives a text that is not
@@ -351,6 +352,54 @@ func setToZero(fv reflect.Value) bool {
 		return false
 	}
 	return true
+}
+
+// zeroInElems rewrites part of a generated value: inside the element structs of
+// slices and arrays (their fields are not pointerified, so "written" and "zero"
+// can coincide) one element in four becomes the zero element, and otherwise one
+// scalar field in four is set to the zero value of its type.
+func zeroInElems(r *coqfmt.Rng, v reflect.Value, inElem bool) int {
+	n := 0
+	t := v.Type()
+	if t == rty.TTUp() || t == rty.TTUv() {
+		return 0
+	}
+	switch v.Kind() {
+	case reflect.Ptr:
+		if !v.IsNil() {
+			n += zeroInElems(r, v.Elem(), inElem)
+		}
+	case reflect.Slice, reflect.Array:
+		if t.Elem().Kind() != reflect.Struct || t.Elem() == rty.TTUp() || t.Elem() == rty.TTUv() {
+			return 0
+		}
+		for i := 0; i < v.Len(); i++ {
+			if r.Chance(1, 4) {
+				v.Index(i).Set(reflect.Zero(t.Elem()))
+				n++
+			} else {
+				n += zeroInElems(r, v.Index(i), true)
+			}
+		}
+	case reflect.Struct:
+		for i := 0; i < v.NumField(); i++ {
+			if t.Field(i).PkgPath != "" {
+				continue
+			}
+			fv := v.Field(i)
+			switch fv.Kind() {
+			case reflect.Bool, reflect.String, reflect.Int, reflect.Int8, reflect.Int16, reflect.Int32, reflect.Int64,
+				reflect.Uint, reflect.Uint8, reflect.Uint16, reflect.Uint32, reflect.Uint64, reflect.Float32, reflect.Float64:
+				if inElem && r.Chance(1, 4) {
+					fv.Set(reflect.Zero(fv.Type()))
+					n++
+				}
+			default:
+				n += zeroInElems(r, fv, inElem)
+			}
+		}
+	}
+	return n
 }
 
 func textFor(r *coqfmt.Rng, t reflect.Type) string {
@@ -415,6 +464,7 @@ func Fill(r *coqfmt.Rng, t, tt reflect.Type, c []M, num, den int) Filled {
 		} else {
 			if !(r.Chance(1, 6) && setToZero(fv)) {
 				rty.GenValue(r, fv, rty.VOpts{NilNum: 1, NilDen: 4}, 0)
+				f.ElemZeros += zeroInElems(r, fv, false)
 			} else {
 				f.Zeros++
 			}
